@@ -29,11 +29,12 @@
 (* steps) and no OTHER counter's persisted value changes.                      *)
 (* Written from the documentation (comments of rotate1/openMapped/weekEnd/Add, *)
 (* Dir.Mode, createReport) and the property text, not from the code.           *)
-EXTENDS Integers, Sequences, FiniteSets, TLC, Json
+EXTENDS Integers, Sequences, FiniteSets, TLC, Json, SequencesExt
 
 Rec == ndJsonDeserialize("c05rec.ndjson")
 (* Rec[s] = [scn, family ("counter" | "upload"), pairs (BOOLEAN), steps: Seq([op, ctr, n, toolong]), *)
-(*           (toolong: the counter's name is longer than the 4096 bytes a record can hold)            *)
+(*           (toolong: the counter's name is longer than the 4096 bytes a record can hold;            *)
+(*            odd: the name is empty - nothing is specified about counting it)                        *)
 (*           calls: Seq([i, step, op, kind, pc, err])]                                              *)
 
 CONSTANTS Errnos,        \* errno names injected for single faults
@@ -44,7 +45,7 @@ NS(s) == Len(Rec[s].steps)
 CallAt(s, i) == Rec[s].calls[i]
 
 (* ---- classes of calls --------------------------------------------------------*)
-IsPrefix(p, str) == Len(str) >= Len(p) /\ SubSeq(str, 1, Len(p)) = p
+StartsWith(p, str) == Len(str) >= Len(p) /\ SubSeq(str, 1, Len(p)) = p
 Benign(c) == \/ (c.pc = "mode" /\ c.kind = "os.ReadFile")           \* behaves as local
              \/ c.kind \in {"file.Close", "munmap"}                  \* best effort
 RotateLike(op) == op \in {"open", "rotate"}
@@ -65,7 +66,7 @@ Effect(s, i) ==
     ELSE IF FirstWeekendsRead(s, i) THEN "recreate"
     ELSE IF RotateLike(c.op) THEN "park"
     ELSE IF c.op = "read" THEN
-         (IF IsPrefix("count:", c.pc) THEN (IF StepOpens(s, c.step) THEN "unknown" ELSE "readerr") ELSE "park")
+         (IF StartsWith("count:", c.pc) THEN (IF StepOpens(s, c.step) THEN "unknown" ELSE "readerr") ELSE "park")
     ELSE "unknown"
 
 (* ---- fault plans ---------------------------------------------------------------*)
@@ -76,17 +77,35 @@ Pairs(s)   == IF Rec[s].pairs
               ELSE {}
 Plans(s)   == {<<>>} \cup Singles(s) \cup Pairs(s)
 
-(* the faults of a plan whose position in the real run is known: the first one   *)
-(* always; the second one only if the first changes nothing                      *)
-Effective(s, plan) ==
-    IF Len(plan) = 0 THEN {}
-    ELSE IF Len(plan) = 1 \/ Effect(s, plan[1][1]) # "none" THEN {plan[1][1]}
-    ELSE {plan[1][1], plan[2][1]}
+(* PERSISTENT failures (the directory "found read-only", an unreadable file, a    *)
+(* file system that fails altogether): every call that matches fails, each time.  *)
+(* A matcher is [m, v]: every call of kind v / on path v / that writes / at all.  *)
+(* Its plan lists the matching calls of the recording.                            *)
+WriteKinds == {"os.WriteFile", "os.WriteFile.write", "file.Write", "file.WriteAt", "os.MkdirAll", "os.Remove", "os.Rename", "os.Create", "os.OpenFile"}
+NoMatcher  == [m |-> "-", v |-> "-"]
+Matchers(s) == IF ~Rec[s].persist THEN {}
+               ELSE {[m |-> "kind", v |-> CallAt(s, i).kind] : i \in 1..NC(s)} \cup {[m |-> "pc", v |-> CallAt(s, i).pc] : i \in 1..NC(s)}
+                    \cup {[m |-> "writes", v |-> "-"], [m |-> "all", v |-> "-"]}
+Matches(c, mt) == CASE mt.m = "kind" -> c.kind = mt.v [] mt.m = "pc" -> c.pc = mt.v [] mt.m = "writes" -> c.kind \in WriteKinds [] mt.m = "all" -> TRUE [] OTHER -> FALSE
+ErrnoOf(mt) == CASE mt.m = "kind" -> "EIO" [] mt.m = "pc" -> "EACCES" [] mt.m = "writes" -> "EROFS" [] OTHER -> "EIO"
+PlanOfMatcher(s, mt) == LET idx == SetToSortSeq({i \in 1..NC(s) : Matches(CallAt(s, i), mt)}, LAMBDA a, b : a < b)
+                        IN  [j \in 1..Len(idx) |-> <<idx[j], ErrnoOf(mt)>>]
+
+(* the faults of a plan whose position in the real run is known: the leading ones *)
+(* as long as they change nothing, and the first one that does                    *)
+RECURSIVE EffPrefix(_, _, _)
+EffPrefix(s, plan, j) == IF j > Len(plan) THEN {}
+                         ELSE IF Effect(s, plan[j][1]) = "none" THEN {plan[j][1]} \cup EffPrefix(s, plan, j + 1)
+                         ELSE {plan[j][1]}
+Effective(s, plan) == EffPrefix(s, plan, 1)
+(* more faults follow the first one that changes something *)
+Unplaced(s, plan) == \E j \in DOMAIN plan : plan[j][1] \notin Effective(s, plan)
 (* the step from which nothing can be predicted any more: an unplaced second     *)
 (* fault after a first one that did not park the file, or a removal of files     *)
 FogFrom(s, plan) ==
-    LET rm == {k \in 1..NS(s) : Rec[s].steps[k].op \in {"rmfile", "rmdir"}}
-        f1 == IF Len(plan) = 2 /\ Effect(s, plan[1][1]) \in {"recreate", "growth", "readerr", "unknown"} THEN {CallAt(s, plan[1][1]).step} ELSE {}
+    LET rm == {k \in 1..NS(s) : Rec[s].steps[k].op \in {"rmfile", "rmdir"} \/ Rec[s].steps[k].odd}
+        f1 == IF Unplaced(s, plan)
+              THEN {CallAt(s, i).step : i \in {i \in Effective(s, plan) : Effect(s, i) \in {"recreate", "growth", "readerr", "unknown"}}} ELSE {}
         f2 == {CallAt(s, i).step : i \in {i \in Effective(s, plan) : Effect(s, i) = "unknown"}}
         all == rm \cup f1 \cup f2
     IN  IF all = {} THEN NS(s) + 1 ELSE CHOOSE k \in all : \A k2 \in all : k <= k2
@@ -111,6 +130,7 @@ ModeOf(s, plan, k, before, after) ==
     LET step == Rec[s].steps[k] IN
     IF step.op # "add" THEN "-"
     ELSE IF step.toolong THEN "memory"
+    ELSE IF step.odd THEN "any"                   \* an empty name: the documentation does not say whether it can be counted
     ELSE IF before.park = "yes" THEN "memory"
     ELSE IF before.park = "any" THEN "any"
     ELSE IF ~before.opened THEN "memory"
@@ -131,10 +151,11 @@ Fold(s, plan, k, st, acc) ==
 Predict(s, plan) == Fold(s, plan, 1, [park |-> "no", opened |-> FALSE, stuck |-> {}], <<>>)
 
 (* ---- enumeration --------------------------------------------------------------- *)
-VARIABLES scn, fplan, pred
-vars == <<scn, fplan, pred>>
+VARIABLES scn, fplan, pred, pm          \* pm: the matcher of a persistent plan, NoMatcher otherwise
+vars == <<scn, fplan, pred, pm>>
 Init == /\ scn \in 1..Len(Rec)
-        /\ fplan \in Plans(scn)
+        /\ \/ fplan \in Plans(scn) /\ pm = NoMatcher
+           \/ pm \in Matchers(scn) /\ fplan = PlanOfMatcher(scn, pm)
         /\ pred = Predict(scn, fplan)
 Next == UNCHANGED vars
 Spec == Init /\ [][Next]_vars
@@ -151,7 +172,7 @@ FaultFreePersists ==
     (fplan = <<>> /\ Rec[scn].family = "counter") =>
         \A k \in Steps : k < FogFrom(scn, fplan) =>
             /\ pred[k].park = "no"
-            /\ (Rec[scn].steps[k].op = "add" /\ ~Rec[scn].steps[k].toolong /\ \E j \in 1..(k - 1) : RotateLike(Rec[scn].steps[j].op)) => pred[k].mode = "persist"
+            /\ (Rec[scn].steps[k].op = "add" /\ ~Rec[scn].steps[k].toolong /\ ~Rec[scn].steps[k].odd /\ \E j \in 1..(k - 1) : RotateLike(Rec[scn].steps[j].op)) => pred[k].mode = "persist"
 (* failures that the documentation declares harmless predict what no failure predicts *)
 BenignChangesNothing == (\A j \in DOMAIN fplan : Effect(scn, fplan[j][1]) = "none") => pred = Predict(scn, <<>>)
 (* a parked file has a cause: a non-benign failure in an open / rotate / read step at or before it *)
@@ -160,12 +181,18 @@ ParkHasCause == \A k \in Steps : pred[k].park = "yes" =>
 (* a growth failure keeps exactly that counter in memory: other counters added later are persisted *)
 GrowthIsLocal ==
     (Len(fplan) = 1 /\ Effect(scn, fplan[1][1]) = "growth") =>
-        \A k \in Steps : (Rec[scn].steps[k].op = "add" /\ ~Rec[scn].steps[k].toolong /\ k < FogFrom(scn, fplan) /\ Rec[scn].steps[k].ctr # Rec[scn].steps[CallAt(scn, fplan[1][1]).step].ctr
+        \A k \in Steps : (Rec[scn].steps[k].op = "add" /\ ~Rec[scn].steps[k].toolong /\ ~Rec[scn].steps[k].odd /\ k < FogFrom(scn, fplan) /\ Rec[scn].steps[k].ctr # Rec[scn].steps[CallAt(scn, fplan[1][1]).step].ctr
                           /\ \E j \in 1..(k - 1) : RotateLike(Rec[scn].steps[j].op)) => pred[k].mode = "persist"
 (* a second fault that cannot be placed never makes the prediction sharper than the first alone *)
 PairNoSharper ==
     (Len(fplan) = 2 /\ Effect(scn, fplan[1][1]) = "park") => pred = Predict(scn, <<fplan[1]>>)
 (* a name that cannot be stored is kept in memory whatever else happens *)
 TooLongInMemory == \A k \in Steps : (Rec[scn].steps[k].op = "add" /\ Rec[scn].steps[k].toolong) => pred[k].mode = "memory"
-Sane == TypeOK /\ TooLongInMemory /\ ParkSticky /\ ParkedMeansMemory /\ FaultFreePersists /\ BenignChangesNothing /\ ParkHasCause /\ GrowthIsLocal /\ PairNoSharper
+(* a persistent failure is at least as bad as its first effective failure alone: where the  *)
+(* single fault parks the file, so does the persistent one                                    *)
+PersistentParks ==
+    (pm # NoMatcher /\ Len(fplan) > 0) =>
+        \A i \in Effective(scn, fplan) : Effect(scn, i) = "park" =>
+            pred[CallAt(scn, i).step].park = "yes"
+Sane == TypeOK /\ PersistentParks /\ TooLongInMemory /\ ParkSticky /\ ParkedMeansMemory /\ FaultFreePersists /\ BenignChangesNothing /\ ParkHasCause /\ GrowthIsLocal /\ PairNoSharper
 =============================================================================
